@@ -15,6 +15,7 @@ if not base_file.exists():
 baseline = json.loads(base_file.read_text())
 BASE_COMMITS = ["51ed23f", "2c61668", "b59310b", "8fb63a3", "1e5babd"]
 _lock = threading.Lock()
+_wt_lock = threading.Lock()
 
 
 def baseline_for(full):
@@ -35,8 +36,9 @@ def one(d: Path):
     name = "b_" + d.parent.name + "_" + d.name
     wt = Path("/tmp/vwt") / name
     wt.parent.mkdir(exist_ok=True)
-    subprocess.run(["git", "-C", "/repo", "worktree", "remove", "--force", str(wt)], capture_output=True)
-    subprocess.run(["git", "-C", "/repo", "worktree", "add", "-q", "--detach", str(wt), "HEAD"], check=True)
+    with _wt_lock:  # git's worktree bookkeeping is not safe against concurrent add/remove
+        subprocess.run(["git", "-C", "/repo", "worktree", "remove", "--force", str(wt)], capture_output=True)
+        subprocess.run(["git", "-C", "/repo", "worktree", "add", "-q", "--detach", str(wt), "HEAD"], check=True)
     try:
         r = subprocess.run(["git", "-C", str(wt), "apply", "--whitespace=nowarn", str((d / "patch.diff").resolve())], capture_output=True, text=True)
         base, extra = baseline, {}
@@ -61,7 +63,8 @@ def one(d: Path):
                 fired[pid] = newk[:6]
         return name, dict({"applies": True, "fired": fired}, **extra)
     finally:
-        subprocess.run(["git", "-C", "/repo", "worktree", "remove", "--force", str(wt)], capture_output=True)
+        with _wt_lock:
+            subprocess.run(["git", "-C", "/repo", "worktree", "remove", "--force", str(wt)], capture_output=True)
 
 
 dirs = [Path(a) for a in sys.argv[1:]]
